@@ -715,6 +715,12 @@ class FnLower:
         if f.kind == 'CXXConstructorDecl' and f.record.tag.startswith('htmp'):
             self.w('env_track_temp(self->m_data_ptr);')
             self.rule('r9b')
+        if f.record is not None and f.record.tag == 'ai' and f.name in ('destroy', 'destroy_range') and not body[0].get('inner'):
+            # r15b: the header's empty overloads for trivially destructible element types are its statement that destruction
+            # is a no-op; in the ghost model they still end the elements' lifetimes
+            ps = [p[0] for p in f.params if p[0] != 'self']
+            self.w('%s(%s);' % ('env_elem_end_lifetime' if f.name == 'destroy' else 'env_elem_end_lifetime_range', ', '.join(ps)))
+            self.rule('r15b')
         self.stmt(body[0], toplevel=True)
         if f.kind == 'CXXDestructorDecl':
             self.dtor_epilogue()
@@ -1739,6 +1745,14 @@ class FnLower:
             ret_, _ = parse_fn_type(fnt)
             self.rule('r4')
             return 'NUMERIC_%s_%s' % (name.upper(), self.em.tm.ctype(ret_).abbr())
+        if name == 'construct' and len(args) >= 2 and 'alloc' in fnt.split(')')[0]:
+            # std::allocator_traits<A>::construct (a, p, args...) for an allocator without a construct member == ::new (p) T (args...)
+            _, pt_ = parse_fn_type(fnt) if 'decltype' not in fnt.split('(')[0] else (None, None)
+            dest = self.ex(args[1])
+            ptypes_ = [a_['type'].get('desugaredQualType') or a_['type']['qualType'] for a_ in args[2:]]
+            ptypes_ = [(t_ + (' &&' if a_.get('valueCategory') == 'xvalue' else ' &' if a_.get('valueCategory') == 'lvalue' else '')) for t_, a_ in zip(ptypes_, args[2:])]
+            self.elem_construct(dest, n, args[2:], 'void (%s)' % ', '.join(ptypes_))
+            return dest
         if name == 'construct_at':
             # std::construct_at (p, args...) == ::new (p) T (args...)
             _, pt_ = parse_fn_type(fnt)
